@@ -25,7 +25,7 @@ def _kv(tokens):
 def parse_vspec(path):
     """Parse a .vspec overlay file into a unit description."""
     unit = {"name": None, "doc": "", "sources": [], "prelude": "", "post": "", "uses": [],
-            "fn_props": {}, "path": path, "canary_skip": []}
+            "fn_props": {}, "path": path, "canary_skip": [], "std_opaque": []}
     cur_src = None
     mode = None  # ('prelude'|'post'|'fn'|'entry'|'loop'|'attrs'|'hoist'|'chain'|'item_stub'|'macro_stub', obj, key)
     buf = []
@@ -58,6 +58,10 @@ def parse_vspec(path):
             mode[1]["spec"] = "\n".join(lines[2:])
         elif kind in ("hoist", "chain"):
             lines = [l for l in buf if l.strip()]
+            pins = [l for l in lines if l.strip().startswith("pin:")]
+            lines = [l for l in lines if not l.strip().startswith("pin:")]
+            if pins and kind == "hoist":
+                mode[1]["pin"] = pins[0].strip()[4:].strip()
             mode[1]["sig"] = lines[0].strip() if lines else ""
             mode[1]["spec"] = "\n".join(lines[1:])
         elif kind == "item_stub":
@@ -104,7 +108,7 @@ def parse_vspec(path):
                            "external": [], "contracts": {}, "vec_places": [], "hoists": [],
                            "strip_derives": [], "for_rewrite": [], "chain_hoists": [],
                            "item_stubs": {}, "macro_stubs": {}, "item_attrs": {}, "ident_renames": {}, "item_inject": {}, "trait_sized": [], "expr_hoists": [], "inherent_copy": [],
-                           "external_all": False, "verify": [], "strlit_facts": False}
+                           "external_all": False, "verify": [], "strlit_facts": False, "parse_f64": False, "phf_stub": {}, "bitflags_stub": False, "known_lits": []}
                 unit["sources"].append(cur_src)
             elif d == "keep":
                 cur_src["keep"].append(rest)
@@ -120,6 +124,14 @@ def parse_vspec(path):
                 cur_src["inherent_copy"].append(rest)
             elif d == "trait_sized":
                 cur_src["trait_sized"].append(rest)
+            elif d == "phf_stub":
+                cur_src["phf_stub"][" ".join(args[:-1])] = args[-1]
+            elif d == "bitflags_stub":
+                cur_src["bitflags_stub"] = True
+            elif d == "known_lits":
+                cur_src["known_lits"] += json.loads(open(os.path.join(VERIF, "specs", "templates", rest)).read())
+            elif d == "parse_f64":
+                cur_src["parse_f64"] = True
             elif d == "strlit_facts":
                 cur_src["strlit_facts"] = True
             elif d == "external_all":
@@ -138,7 +150,7 @@ def parse_vspec(path):
                     opts.append(toks.pop())
                 key = " ".join(toks)
                 kv, flags = _kv(opts)
-                cur_contract = {"ret": kv.get("ret"), "spec": "", "entry": "", "exit": "", "loops": {}, "attrs": "",
+                cur_contract = {"ret": kv.get("ret"), "spec": "", "entry": "", "exit": "", "pin_body": "", "loops": {}, "attrs": "",
                                 "external": "external" in flags}
                 cur_src["contracts"][key] = cur_contract
                 unit["fn_props"][key] = [p for p in kv.get("props", "").split(",") if p]
@@ -149,13 +161,15 @@ def parse_vspec(path):
                 mode = ("attrs", cur_contract)
             elif d == "exit":
                 mode = ("exit", cur_contract)
+            elif d == "pin_body":
+                cur_contract["pin_body"] = rest
             elif d == "loop":
                 mode = ("loop", cur_contract, args[0])
             elif d == "hoist":
                 kv, flags = _kv(args)
                 h = {"in_fn": kv["in"].replace("~", " "), "nth": int(kv["nth"]), "split": kv["split"],
                      "name": kv["name"], "generics": kv.get("generics", "").replace("~", " "),
-                     "by_ref": "by_ref" in flags, "sig": "", "spec": ""}
+                     "by_ref": "by_ref" in flags, "sig": "", "spec": "", "pin": ""}
                 cur_src["hoists"].append(h)
                 mode = ("hoist", h)
             elif d == "chain":
@@ -169,7 +183,8 @@ def parse_vspec(path):
                 kv, flags = _kv(args)
                 h = {"in_fn": kv["in"].replace("~", " "), "text": "", "name": kv["name"],
                      "generics": kv.get("generics", "").replace("~", " "),
-                     "args": kv.get("args", "").replace("~", " "), "sig": "", "spec": ""}
+                     "args": kv.get("args", "").replace("~", " "), "sig": "", "spec": "",
+                     "method_of": kv.get("method_of", "")}
                 cur_src["expr_hoists"].append(h)
                 mode = ("exprh", h)
             elif d == "item_stub":
@@ -184,6 +199,10 @@ def parse_vspec(path):
                 mode = ("prelude",)
             elif d == "post":
                 mode = ("post",)
+            elif d == "rlimit":
+                unit["rlimit"] = args[0]
+            elif d == "std_opaque":
+                unit["std_opaque"] += args
             elif d == "canary_skip":
                 unit["canary_skip"].append(rest)
             elif d == "end":
@@ -278,6 +297,10 @@ def gen_sources(unit, external_all=False, canary=None):
 def gen_unit(name, canary=False, outname=None):
     unit = load_unit(name)
     std = open(os.path.join(VERIF, "specs", "std.rs"), encoding="utf-8").read()
+    for fn in unit.get("std_opaque", []):
+        std, n = re.subn(r"(?m)^(pub open spec fn %s\()" % re.escape(fn), r"#[verifier::opaque] \1", std)
+        if n != 1:
+            raise SpecError(f"unit {name}: cannot make std.rs function `{fn}` opaque")
     parts = [HEADER.format(srcs=", ".join(s["rel"] for s in unit["sources"]), unit=name), std]
     if canary:
         parts.append("pub uninterp spec fn vx_canary(k: int) -> bool;\n")
@@ -291,7 +314,14 @@ def gen_unit(name, canary=False, outname=None):
                 raise SpecError(f"unit {name} uses {u['unit']} which uses {uu['unit']}: list it explicitly before")
         t, h, m = gen_sources(dep, external_all=True)
         parts.append(f"// ======== imported unit `{u['unit']}` (contracts only; bodies verified in their own unit) ========\n")
-        parts.append(dep["prelude"])
+        prel = dep["prelude"]
+        for fl in u["flags"]:
+            if fl.startswith("opaque="):
+                for fn in fl[len("opaque="):].split(","):
+                    prel, n = re.subn(r"(?m)^(pub open spec fn %s\()" % re.escape(fn), r"#[verifier::opaque] \1", prel)
+                    if n != 1:
+                        raise SpecError(f"unit {name}: cannot make `{fn}` of unit {u['unit']} opaque")
+        parts.append(prel)
         parts.append(t)
         parts.append(h)
         if "with_post" in u["flags"]:
